@@ -231,6 +231,66 @@ pub fn run(tier: Tier) -> i32 {
             ctx.scope_done(name, items.len() as u64, t0, "header field 0/1/16/512/999/4095 x limits below and above it, one-shot and Stream");
         }
     }
+    // ---------------------------------------------------------------- output that grows by copies only (one literal, then matches):
+    // bytes produced by a copy count against the limit like literals do
+    {
+        let name = "public+raw+stream/growth-by-copies-only";
+        if ctx.may_start(name) {
+            let t0 = Instant::now();
+            let mut items = Vec::new();
+            for total in [2usize, 300, 1000, 4096, 5000] {
+                for dict in [4096u32, 65536] {
+                    let need = total.min(dict as usize) as u64;
+                    for m in [0u64, 1, need / 2, need.saturating_sub(1), need, need + 1] {
+                        for how in 0..5 {
+                            items.push((total, dict, m, how));
+                        }
+                    }
+                }
+            }
+            par_for(items.len() as u64, |i| {
+                let (total, dict, m, how) = items[i as usize];
+                let mut prog = vec![Sym::L(0x61)];
+                let mut produced = 1usize;
+                while produced < total {
+                    let l = (total - produced).min(273);
+                    if l < 2 {
+                        prog.push(Sym::S);
+                        produced += 1;
+                    } else {
+                        prog.push(Sym::M(1, l as u32));
+                        produced += l;
+                    }
+                }
+                let need = total.min(dict as usize) as u64;
+                let sized = how != 1;
+                if !sized {
+                    prog.push(Sym::E);
+                }
+                let e = enc::encode(3, 0, 2, dict as u64, &prog);
+                assert!(e.bad.is_none() && e.expect.len() == total);
+                let opts = |size| Opts { memlimit: Some(m), size, ..Opts::default() };
+                let case = match how {
+                    0 => Case::Dec { fmt: Fmt::Lzma, opts: opts(crate::cases::SizeOpt::Header), input: Hex(enc::lzma_file(3, 0, 2, dict, Some(total as u64), &e.payload)), rd: Rd::default(), sk: Sk::default() },
+                    1 => Case::Dec { fmt: Fmt::Lzma, opts: opts(crate::cases::SizeOpt::Header), input: Hex(enc::lzma_file(3, 0, 2, dict, None, &e.payload)), rd: Rd::default(), sk: Sk::default() },
+                    2 => Case::Dec { fmt: Fmt::Lzma, opts: opts(crate::cases::SizeOpt::HeaderProvided(Some(total as u64))), input: Hex(enc::lzma_file(3, 0, 2, dict, Some(7), &e.payload)), rd: Rd::default(), sk: Sk::default() },
+                    3 => Case::RawLzma { lc: 3, lp: 0, pb: 2, dict, size: Some(total as u64), memlimit: Some(m), ops: vec![RawOp::Dec(Hex(e.payload.clone()))] },
+                    _ => Case::Stream { opts: opts(crate::cases::SizeOpt::Header), sk: Sk::default(), ops: vec![SOp::WriteAll(Hex(enc::lzma_file(3, 0, 2, dict, Some(total as u64), &e.payload))), SOp::Finish] },
+                };
+                let o = run_case(&case);
+                ctx.eval(1);
+                ctx.nontriv(1);
+                ctx.traces.fetch_add(1, Ordering::Relaxed);
+                let failed = if o.ops.is_empty() { o.v.is_err() } else { o.ops.iter().any(|r| r.v.is_err()) };
+                let all_ok = if o.ops.is_empty() { o.v.is_ok() } else { o.ops.iter().all(|r| r.v.is_ok()) };
+                let ok = if need <= m { all_ok && o.out.0 == e.expect } else { failed && e.expect.starts_with(&o.out.0) };
+                if !ok {
+                    ctx.violation(&case, &format!("one literal then copies only, {} output bytes, dict {}, limit {}: needed window {} => {}", total, dict, m, need, if need <= m { "Ok, identical to unlimited" } else { "Err, delivered bytes a prefix" }), &o, None);
+                }
+            });
+            ctx.scope_done(name, items.len() as u64, t0, "size in header / marker / provided size / raw decoder / Stream");
+        }
+    }
     // ---------------------------------------------------------------- a window that wraps needs no more memory than one that is about to wrap
     {
         let name = "public/wrap-does-not-grow-heap";
